@@ -71,7 +71,8 @@ class _BadiYearMonthDayCalculator(_YearMonthDayCalculator):
     def _get_days_in_ayyami_ha(cls, year: int) -> int:
         from .. import CalendarSystem
 
-        _Preconditions._check_argument_range("year", year, cls.__BADI_MIN_YEAR, cls.__BADI_MAX_YEAR)
+        # Year 0 (the year before the first) is needed by week-year rules, as in every other calendar.
+        _Preconditions._check_argument_range("year", year, cls.__BADI_MIN_YEAR - 1, cls.__BADI_MAX_YEAR)
         if year < cls.__FIRST_YEAR_OF_STANDARDIZED_CALENDAR:
             return (
                 cls.__DAYS_IN_AYYAMI_HA_IN_LEAP_YEAR
@@ -85,7 +86,7 @@ class _BadiYearMonthDayCalculator(_YearMonthDayCalculator):
 
     @classmethod
     def __get_naw_ruz_day_in_march(cls, year: int) -> int:
-        _Preconditions._check_argument_range("year", year, cls.__BADI_MIN_YEAR, cls.__BADI_MAX_YEAR)
+        _Preconditions._check_argument_range("year", year, cls.__BADI_MIN_YEAR - 1, cls.__BADI_MAX_YEAR)
         if year < cls.__FIRST_YEAR_OF_STANDARDIZED_CALENDAR:
             return 21
         day_in_march_for_offset_to_naw_ruz = 19
@@ -95,7 +96,7 @@ class _BadiYearMonthDayCalculator(_YearMonthDayCalculator):
     def _calculate_start_of_year_days(self, year: int) -> int:
         from .. import LocalDate
 
-        _Preconditions._check_argument_range("year", year, self.__BADI_MIN_YEAR, self.__BADI_MAX_YEAR)
+        _Preconditions._check_argument_range("year", year, self.__BADI_MIN_YEAR - 1, self.__BADI_MAX_YEAR)
         # The epoch is the same regardless of calendar system, so if we work out when the
         # start of the Badíʿ year is in terms of the Gregorian year, we can just use that
         # date's days-since-epoch value.
